@@ -20,7 +20,7 @@ int main(int argc, char** argv) {
     begin_case(s);
     ND_CASE_GUARD();
     Rng r(s);
-    mg::GenOpts go;
+    mg::GenOpts go; go.flex_chance = 0.08;
     go.autoreset_off = r.chance(0.25);
     std::string mdesc;
     mjModel* m = sup.get(r, go, &mdesc);
